@@ -63,6 +63,11 @@ def evalLine (toks : List String) : String :=
       | _ => b2s r.2.2
     | ["fp", name] => fpEval name (parseHex sa) (parseHex sb)
     | ["ld", t] => match docLoad t a with | some r => hex r | none => "bad-key"
+    | ["btld", t, kind] =>   -- bt/bf/bts/bfs on a value loaded from memory of type t
+      match docLoad t a with
+      | some v => b2s (docBT (kind == "bts" || kind == "bfs") (kind == "bf" || kind == "bfs") v)
+      | none => "bad-key"
+    | ["bt", kind] => b2s (docBT (kind == "bts" || kind == "bfs") (kind == "bf" || kind == "bfs") a)
     | ["st", t] => match docStore t a b with | some r => hex r | none => "bad-key"
     | _ => "bad-key"
   | _ => "bad-line"
